@@ -702,6 +702,56 @@ func localDynamicType(site ssa.CallInstruction, wrapperField ssa.Value) types.Ty
 	if !ok {
 		return nil
 	}
+	// a record that is assigned exactly once in the whole function has that value wherever the call stands
+	if refs := recv.Referrers(); refs != nil {
+		var only *ssa.Store
+		var onlyField *ssa.Store
+		n, nf := 0, 0
+		for _, r := range *refs {
+			switch x := r.(type) {
+			case *ssa.Store:
+				if x.Addr == ssa.Value(recv) {
+					only = x
+					n++
+				}
+			case *ssa.FieldAddr:
+				if x.Field == field && x.Referrers() != nil {
+					for _, r2 := range *x.Referrers() {
+						if s2, ok := r2.(*ssa.Store); ok && s2.Addr == ssa.Value(x) {
+							onlyField = s2
+							nf++
+						}
+					}
+				}
+			}
+		}
+		if n == 0 && nf == 1 {
+			// built in place, field by field: w := Wrap{KeepLast{}}
+			if mi, ok := onlyField.Val.(*ssa.MakeInterface); ok {
+				return mi.X.Type()
+			}
+		}
+		if nf > 0 {
+			n += 2
+		}
+		if n == 1 {
+			if ld, ok := only.Val.(*ssa.UnOp); ok {
+				if lit, ok := ld.X.(*ssa.Alloc); ok && lit.Referrers() != nil {
+					for _, r := range *lit.Referrers() {
+						if f2, ok := r.(*ssa.FieldAddr); ok && f2.Field == field && f2.Referrers() != nil {
+							for _, r2 := range *f2.Referrers() {
+								if s2, ok := r2.(*ssa.Store); ok && s2.Addr == ssa.Value(f2) {
+									if mi, ok := s2.Val.(*ssa.MakeInterface); ok {
+										return mi.X.Type()
+									}
+								}
+							}
+						}
+					}
+				}
+			}
+		}
+	}
 	b := call.Block()
 	idx := -1
 	for i, in := range b.Instrs {
